@@ -29,6 +29,8 @@ func Failf(format string, a ...any) *Failure { return &Failure{Detail: fmt.Sprin
 
 // Ctx is the state of one check run.
 type Ctx struct {
+	// Quiesce: judges run under its read lock; the re-runs of a failing witness take the write lock
+	Quiesce  sync.RWMutex
 	Prop     string
 	Tier     string
 	Seed     int64
@@ -221,11 +223,16 @@ func (c *Ctx) Violation(kase any, first *Failure, rejudge func() *Failure, testT
 		HarnessError("cannot serialise witness: %v", err)
 	}
 	if rejudge != nil {
+		// the re-runs happen while no other worker is inside a judge: if the code under test keeps process-wide
+		// mutable state, concurrent judges would otherwise make the witness look flaky
+		c.Quiesce.Lock()
 		for i := 0; i < 5; i++ {
 			if f := rejudge(); f == nil {
+				c.Quiesce.Unlock()
 				HarnessError("witness did not reproduce on re-run %d (nondeterministic harness): %s :: %s", i+1, string(data), first.Detail)
 			}
 		}
+		c.Quiesce.Unlock()
 	}
 	c.mu.Lock()
 	defer c.mu.Unlock()
